@@ -492,6 +492,17 @@ func (of *orderFlow) comparatorTotal(funcs []*ssa.Function, elem types.Type) (co
 	// basic element types: any comparison of the values themselves is total if it is a known total comparator
 	switch u := elem.Underlying().(type) {
 	case *types.Basic:
+		// … if the comparator compares the values themselves: a comparator of the
+		// module that compares something looked up or computed from them (a count
+		// per name, a length) leaves distinct values with equal keys in input order
+		for f := range seen {
+			if !p.InModule(f) || f.Blocks == nil {
+				continue
+			}
+			if bad := basicOperandTransformed(p, f); bad != "" {
+				return core.Violated, "comparator " + originName(f) + " does not compare the elements themselves but " + bad + ": distinct elements can compare equal, and ties keep the unspecified input order"
+			}
+		}
 		if u.Info()&types.IsFloat != 0 {
 			return core.Discharged, "elements are numbers compared by value"
 		}
@@ -1402,6 +1413,65 @@ func transformedOperand(p *core.Prog, fn *ssa.Function) string {
 		}
 		if callee != nil && p.InModule(callee) && isComparisonResult(call) {
 			return
+		}
+		bad = describeValue(p, v) + " at " + p.Pos(core.NearPos(where))
+	}
+	core.EachInstr(fn, func(ins ssa.Instruction) {
+		switch x := ins.(type) {
+		case *ssa.Call:
+			if isPrimitiveComparison(x.Call.StaticCallee()) {
+				for _, a := range x.Call.Args {
+					check(a, x)
+				}
+			}
+		case *ssa.BinOp:
+			switch x.Op {
+			case token.LSS, token.GTR, token.LEQ, token.GEQ, token.EQL, token.NEQ:
+				_, cx := x.X.(*ssa.Const)
+				_, cy := x.Y.(*ssa.Const)
+				if !cx && !cy {
+					check(x.X, x)
+					check(x.Y, x)
+				}
+			}
+		}
+	})
+	return bad
+}
+
+// basicOperandTransformed: in a comparator over basic values, an operand of a
+// primitive comparison that is not one of the comparator's own parameters (or
+// a constant, or the result of another comparison).
+func basicOperandTransformed(p *core.Prog, fn *ssa.Function) string {
+	bad := ""
+	check := func(v ssa.Value, where ssa.Instruction) {
+		if bad != "" {
+			return
+		}
+		v = core.Strip(v)
+		for {
+			if cv, ok := v.(*ssa.Convert); ok {
+				v = core.Strip(cv.X)
+				continue
+			}
+			break
+		}
+		switch x := v.(type) {
+		case *ssa.Parameter, *ssa.Const:
+			return
+		case *ssa.Call:
+			if callee := x.Call.StaticCallee(); callee != nil && (isPrimitiveComparison(callee) || (p.InModule(callee) && isComparisonResult(x))) {
+				return
+			}
+		case *ssa.UnOp:
+			// a parameter spilled to a local
+			if al, ok := x.X.(*ssa.Alloc); ok && x.Op == token.MUL {
+				if st := core.StoresTo(al); len(st) == 1 {
+					if _, isPrm := core.Strip(st[0].Val).(*ssa.Parameter); isPrm {
+						return
+					}
+				}
+			}
 		}
 		bad = describeValue(p, v) + " at " + p.Pos(core.NearPos(where))
 	}
